@@ -46,7 +46,7 @@ def sweep_one(sid):
 
 
 def main(argv):
-    ids = [a.upper() if not a.endswith("-2") else a[:-2].upper() + "-2" for a in argv] or sorted(d for d in os.listdir(os.path.join(HERE, "seeded")) if os.path.isdir(os.path.join(HERE, "seeded", d)))
+    ids = [a.upper() if "-" not in a else a.split("-")[0].upper() + "-" + a.split("-")[1] for a in argv] or sorted(d for d in os.listdir(os.path.join(HERE, "seeded")) if os.path.isdir(os.path.join(HERE, "seeded", d)))
     with concurrent.futures.ThreadPoolExecutor(max_workers=4) as ex:
         res = list(ex.map(sweep_one, ids))
     n_det = 0
